@@ -5,12 +5,14 @@ import (
 	"encoding/hex"
 	"hash/fnv"
 	"io"
+	"slices"
 	"sync"
 
 	"github.com/bronlabs/errs-go/errs"
 
 	"github.com/bronlabs/bron-crypto/pkg/base"
 	"github.com/bronlabs/bron-crypto/pkg/base/algebra"
+	fieldsImpl "github.com/bronlabs/bron-crypto/pkg/base/algebra/impl/fields"
 	"github.com/bronlabs/bron-crypto/pkg/base/ct"
 	"github.com/bronlabs/bron-crypto/pkg/base/curves"
 	bls12381Impl "github.com/bronlabs/bron-crypto/pkg/base/curves/pairable/bls12381/impl"
@@ -90,6 +92,15 @@ func (*Gt) FromBytes(inBytes []byte) (*GtElement, error) {
 	var element GtElement
 	if ok := element.V.SetBytes(inBytes); ok == 0 {
 		return nil, curves.ErrFailed.WithMessage("failed to set bytes")
+	}
+	// GT is the subgroup of order r of Fp12*: x^r = 1 (this also excludes 0)
+	_ = NewScalarField()
+	orderBytes := scalarFieldOrder.Bytes()
+	slices.Reverse(orderBytes)
+	var t bls12381Impl.Fp12
+	fieldsImpl.Pow(&t, &element.V.Fp12, orderBytes)
+	if t.IsOne() != 1 {
+		return nil, curves.ErrSubGroupMembership.WithStackFrame()
 	}
 
 	return &element, nil
